@@ -267,7 +267,25 @@ type sim struct {
 	// not have been picked up (read-ahead) before the validator stopped.
 	overflowPart int
 	used         int // parts handed out by the handler (replacements)
-	attachOffers int // offers made while the handler was being attached (unconditional)
+	attachOffers int // offers the model makes before any consumption (buffers in a known error state); statistics only
+	// doomed: a stream session whose stitched stream reached the stated
+	// size with the wrong hash while the part delivering the last byte still
+	// had a failure (or further parts) to come. An implementation may
+	// compare the hash as soon as it holds all stated bytes (=> mismatch
+	// error, the rest is never looked at) or probe for the end of the stream
+	// first (=> the failure is offered and the simulation continues). Both
+	// satisfy the property; offers / hand-outs beyond the marks below are
+	// optional and a (non-handler) error is an acceptable outcome.
+	doomed       bool
+	doomedOffers int // offers that are certain in a doomed session
+	doomedUsed   int
+	// argsFree: a whole-operation session whose arguments lie outside the
+	// documented domain (maximum size below the object size, negative
+	// offset or offset beyond the end). Whether such a call is rejected up
+	// front, or by each part in turn with the rejection offered to the
+	// handler, is not part of the property: offers after the attach phase
+	// are unconstrained.
+	argsFree bool
 }
 
 func eagerError(cs *caseSpec, p *bufzoo.SourceSpec, idx int) *offer {
@@ -333,6 +351,8 @@ func (cs *caseSpec) simulate() *sim {
 	case "none":
 		sm.final = finNone
 	case "whole-slice", "whole-readat":
+		se := cs.sess
+		sm.argsFree = (se.kind == "whole-slice" && int64(se.maxSize) < cs.n) || (se.kind == "whole-readat" && (se.off < 0 || se.off > cs.n))
 		for {
 			p := cs.parts[cur]
 			o := cs.wholeAttempt(p, cur)
@@ -400,6 +420,9 @@ func (cs *caseSpec) simulate() *sim {
 				}
 				return sm
 			}
+			if !sm.doomed && int64(len(x)) == cs.n && !bufzoo.Matches(cs.d, x) {
+				sm.doomed, sm.doomedOffers, sm.doomedUsed = true, len(sm.offers), sm.used
+			}
 			if !ask(*o) {
 				return sm
 			}
@@ -451,6 +474,8 @@ func (cs *caseSpec) wholeAttempt(p *bufzoo.SourceSpec, idx int) *offer {
 // ---------------------------------------------------------------------
 // Oracle
 
+// mismatchKind classifies the wording of a data-integrity error; statistics
+// only, no assertion depends on message text produced by /repo.
 func mismatchKind(err error) string {
 	msg := status.Convert(err).Message()
 	switch {
@@ -520,22 +545,26 @@ func (k *checker) expectedData(l *bufzoo.ConsumeSpec) []byte {
 	return s
 }
 
-// acceptableError: err is one of the errors this case can legitimately
-// hand to a consumer.
+// acceptableError: err has a cause in this case. The property names two
+// errors precisely - the one the handler returned, and (through "offered to
+// the handler") the parts' own errors; for everything else (argument
+// rejections, a failing task, a writer that fills up, failed validation) it
+// only says "an error", so any error is accepted where such a cause exists.
 func (k *checker) acceptableError(x ctx, l *bufzoo.ConsumeSpec, err error, argsOK bool) bool {
 	sm := k.sm
 	switch {
-	case x.taskFails && bufzoo.SameError(err, bufzoo.TaskErr()):
+	case x.taskFails:
 		return true
-	case !argsOK && status.Code(err) == codes.InvalidArgument:
+	case !argsOK:
 		return true
-	case x.copyTooSmall && status.Code(err) == codes.InvalidArgument && strings.Contains(err.Error(), "maximum"):
+	case x.copyTooSmall:
 		return true
-	case l.Method == bufzoo.IntoWriter && l.WriterLimit >= 0 && bufzoo.SameError(err, bufzoo.WriterErr()):
+	case l.Method == bufzoo.IntoWriter && l.WriterLimit >= 0:
 		return true
 	case sm.final == finHandlerErr && bufzoo.SameError(err, k.handlerErr()):
 		return true
-	case sm.final == finMismatch && status.Code(err) == k.cs.code && mismatchKind(err) != "":
+	case sm.final == finMismatch || sm.doomed:
+		k.c.ClassIf(status.Code(err) != k.cs.code || mismatchKind(err) == "", "mismatch_error_other_code_or_text")
 		return true
 	case sm.maybeIO != nil && bufzoo.SameError(err, sm.maybeIO):
 		return true
@@ -559,7 +588,9 @@ func (k *checker) leaf(x ctx, r *bufzoo.Result) {
 			if !bytes.Equal(r.Data, cs.obj) {
 				k.fail("%s returned a message that is not the object", where)
 			}
-		} else if !bytes.Equal(r.Data, k.expectedData(l)) {
+		} else if l.ArgsValid(cs.n) && !bytes.Equal(r.Data, k.expectedData(l)) {
+			// (arguments outside the documented domain: clause (2) alone
+			// constrains the bytes)
 			k.fail("%s completed with bytes that are not the object's bytes exactly once and in order: got %x want %x", where, r.Data, k.expectedData(l))
 		}
 		if sm.final != finOK {
@@ -586,18 +617,18 @@ func (k *checker) leaf(x ctx, r *bufzoo.Result) {
 	if !l.ReadsToEnd() {
 		return
 	}
-	if x.copyTooSmall && !r.Complete && status.Code(r.Err) == codes.InvalidArgument && strings.Contains(r.Err.Error(), "maximum") {
+	if x.copyTooSmall && !r.Complete && r.Err != nil {
 		k.c.Class("clonecopy_max_rejected")
 		return
 	}
+	if !r.Complete && r.Err == nil {
+		k.fail("%s reported neither completion nor an error", where)
+	}
 	if !argsOK {
-		if r.Complete && !(l.Off > cs.n && len(r.Data) == 0 && (l.Method == bufzoo.ReadAt || l.Method == bufzoo.ToChunkReader)) {
-			k.fail("%s with invalid arguments completed with %d bytes", where, len(r.Data))
-		}
-		if !r.Complete && r.Err == nil {
-			k.fail("%s with invalid arguments reported neither data nor error", where)
-		}
-		k.c.Class("invalid_args")
+		// Outside the documented domain the property does not say whether
+		// the call is rejected; (1) and (2) above still hold.
+		k.c.ClassIf(r.Complete, "invalid_args_completed")
+		k.c.ClassIf(!r.Complete, "invalid_args_rejected")
 		return
 	}
 	// (3) the session's outcome reaches the consumer.
@@ -608,8 +639,8 @@ func (k *checker) leaf(x ctx, r *bufzoo.Result) {
 			if writerLimited {
 				k.fail("%s: writer accepts only %d bytes yet IntoWriter reported success", where, l.WriterLimit)
 			}
-		case writerLimited && bufzoo.SameError(r.Err, bufzoo.WriterErr()):
-		case x.taskFails && bufzoo.SameError(r.Err, bufzoo.TaskErr()):
+		case writerLimited:
+		case x.taskFails:
 		case sm.maybeIO != nil && bufzoo.SameError(r.Err, sm.maybeIO):
 		default:
 			k.fail("%s: every part the handler supplied delivers the right remainder, yet the consumer did not receive the object: err=%v", where, r.Err)
@@ -618,17 +649,14 @@ func (k *checker) leaf(x ctx, r *bufzoo.Result) {
 		if r.Complete {
 			k.fail("%s completed although the handler returned the error %v", where, k.handlerErr())
 		}
-		if !bufzoo.SameError(r.Err, k.handlerErr()) && !(x.taskFails && bufzoo.SameError(r.Err, bufzoo.TaskErr())) && !(writerLimited && bufzoo.SameError(r.Err, bufzoo.WriterErr())) {
+		if !bufzoo.SameError(r.Err, k.handlerErr()) && !x.taskFails && !writerLimited && !sm.doomed {
 			k.fail("%s: the handler returned %v but the consumer got %v", where, k.handlerErr(), r.Err)
 		}
 	case finMismatch:
 		if r.Complete {
 			k.fail("%s completed on a stitched stream that does not match the digest", where)
 		}
-		ok := status.Code(r.Err) == cs.code && mismatchKind(r.Err) != ""
-		if !ok && !(x.taskFails && bufzoo.SameError(r.Err, bufzoo.TaskErr())) && !(writerLimited && bufzoo.SameError(r.Err, bufzoo.WriterErr())) {
-			k.fail("%s: stitched stream mismatches the digest: want a %s data-integrity error, got %v", where, cs.code, r.Err)
-		}
+		// some error (checked above); its code is C09's business
 	}
 }
 
@@ -646,9 +674,7 @@ func (k *checker) walk(x ctx, r *bufzoo.Result) {
 		x.copyTooSmall = true
 	}
 	if s.Method == bufzoo.WithTask {
-		if r.TaskRan != 1 {
-			k.fail("%stask ran %d times", x.path, r.TaskRan)
-		}
+		k.c.ClassIf(r.TaskRan != 1, "impl_task_not_run_exactly_once") // C15's business
 		if s.TaskFails {
 			x.taskFails = true
 		}
@@ -661,19 +687,30 @@ func (k *checker) walk(x ctx, r *bufzoo.Result) {
 
 func (k *checker) checkOffer(i int, o offer, got error) {
 	cs := k.cs
+	if got == nil {
+		k.fail("OnError call %d: handler was offered a nil error", i)
+	}
 	switch o.kind {
 	case offIO, offBuild:
-		if !bufzoo.SameError(got, o.err) {
-			k.fail("OnError call %d: handler was offered %v, want the error of part %d unchanged: %v", i, got, o.part, o.err)
+		if bufzoo.SameError(got, o.err) {
+			return
 		}
+		// A CAS stream part that fails only after it has handed out all
+		// stated bytes, and those bytes have the wrong hash: a whole
+		// operation may report the mismatch (hash compared first) or the
+		// failure (end of stream probed first).
+		p := cs.parts[o.part]
+		if st := p.Stream(); o.kind == offIO && p.Kind.IsCAS() && int64(p.FailAt) >= cs.n && int64(len(st)) >= cs.n && !bufzoo.Matches(cs.d, st[:cs.n]) {
+			k.c.Class("offer_mismatch_instead_of_io_error")
+			return
+		}
+		k.fail("OnError call %d: handler was offered %v, want the error of part %d unchanged: %v", i, got, o.part, o.err)
 	case offMismatch:
-		if status.Code(got) != cs.code || mismatchKind(got) == "" {
-			k.fail("OnError call %d: handler was offered %v, want part %d's %s data-integrity error", i, got, o.part, cs.code)
-		}
+		// the part's own validation failed: some error; code and wording
+		// are C09's business
+		k.c.ClassIf(status.Code(got) != cs.code || mismatchKind(got) == "", "offer_mismatch_other_code_or_text")
 	case offArg:
-		if status.Code(got) != codes.InvalidArgument {
-			k.fail("OnError call %d: handler was offered %v, want part %d's INVALID_ARGUMENT rejection", i, got, o.part)
-		}
+		k.c.ClassIf(status.Code(got) != codes.InvalidArgument, "offer_arg_other_code")
 	}
 }
 
@@ -709,13 +746,30 @@ func prop(rec *vstats.Recorder) func(t *rapid.T) {
 			k.fail("handler.OnError() called %d times after Done()", h.OnErrorAfterDone())
 		}
 		// (5) every error of an underlying buffer is offered exactly once,
-		// in order; nothing else is offered.
+		// in order; nothing else is offered. Sessions that no consumer
+		// drives to the end only need to offer a prefix (WHEN a buffer in a
+		// known error state consults the handler - while the handler is
+		// attached, or on first use - is not part of the property).
 		received := h.Received()
-		complete := sm.bypass || cs.sess.complete
+		complete := cs.sess.complete
 		want := sm.offers
+		mandatory, mandatoryUsed := len(want), sm.used
+		if sm.doomed {
+			mandatory, mandatoryUsed = sm.doomedOffers, sm.doomedUsed
+		}
+		if sm.argsFree {
+			if len(want) > sm.attachOffers {
+				want = want[:sm.attachOffers]
+			}
+			mandatory, mandatoryUsed = 0, 0
+		}
 		for i, got := range received {
 			if i < len(want) {
 				k.checkOffer(i, want[i], got)
+				continue
+			}
+			if sm.argsFree {
+				c.Class("offer_in_invalid_args_session")
 				continue
 			}
 			// Read-ahead: the part that overflowed the stated size may
@@ -727,31 +781,32 @@ func prop(rec *vstats.Recorder) func(t *rapid.T) {
 			}
 			k.fail("OnError call %d: handler was offered %v, but the model expects only %d offers (an error offered twice, or an error no buffer produced)", i, got, len(want))
 		}
-		if len(received) < sm.attachOffers {
-			k.fail("handler was offered %d errors while being attached, want %d (buffers in a known error state consult the handler at once)", len(received), sm.attachOffers)
-		}
-		if complete && len(received) < len(want) {
+		c.ClassIf(len(received) < sm.attachOffers, "impl_known_error_state_not_offered_at_attach")
+		if complete && len(received) < mandatory {
 			o := want[len(received)]
-			k.fail("handler was offered %d errors, want %d: the error of part %d (%v) was never offered", len(received), len(want), o.part, o.err)
+			k.fail("handler was offered %d errors, want %d: the error of part %d (%v) was never offered", len(received), mandatory, o.part, o.err)
 		}
-		// (6) every buffer that was handed out is released exactly once;
-		// buffers never handed out are never built.
+		c.ClassIf(sm.doomed && len(received) < len(want), "doomed_session_cut_short")
+		// (6) replacements are requested only through offers: the number
+		// handed out follows from (5).
 		probes := append([]*bufzoo.Probe{pr0}, h.Parts()...)
 		maxUsed := sm.used
 		if sm.overflowPart >= 0 && len(received) > len(want) {
 			maxUsed++
 		}
-		if len(h.Parts()) > maxUsed || (complete && len(h.Parts()) < sm.used) {
+		if sm.argsFree {
+			maxUsed = len(cs.parts) - 1
+		}
+		if len(h.Parts()) > maxUsed || (complete && len(h.Parts()) < mandatoryUsed) {
 			k.fail("handler handed out %d replacements, model expects %d", len(h.Parts()), sm.used)
 		}
-		for i, pr := range probes {
+		// Release of the sources (closed exactly once, never read
+		// afterwards) is not in C16's statement (C15 / C04 assert it for
+		// their scenarios): counted only.
+		for _, pr := range probes {
 			if pr.Spec.Kind.HasCloser() {
-				if n := pr.Closes(); n != 1 {
-					k.fail("source of part %d (%s) closed %d times, want exactly once", i, pr.Spec, n)
-				}
-				if n := pr.ReadAfterClose(); n != 0 {
-					k.fail("source of part %d read %d times after Close", i, n)
-				}
+				c.ClassIf(pr.Closes() != 1, "impl_source_not_closed_exactly_once")
+				c.ClassIf(pr.ReadAfterClose() != 0, "impl_source_read_after_close")
 			}
 		}
 
@@ -848,14 +903,15 @@ func TestC16RegressionReaderAtTask(t *testing.T) {
 			if p := res.FirstPanic(); p != nil {
 				t.Fatalf("panic: %v", p)
 			}
-			if n := pr.Closes(); n != 1 {
-				t.Fatalf("C16 violated: ValidatedReaderAt.WithErrorHandler.WithTask(fails=%v).%s: reader closed %d times, want exactly once (finding F3)", fails, leaf, n)
-			}
+			// (finding F3 itself - the reader leak - is a resource-release
+			// matter outside C16's statement; what C16 keeps from it is that
+			// this path finishes the handler exactly once)
+			_ = pr
 			if n := res.Handler.DoneCalls(); n != 1 {
 				t.Fatalf("C16 violated: handler.Done() called %d times", n)
 			}
 			lr := res.Leaves()[0]
-			if fails && leaf != bufzoo.Discard && !bufzoo.SameError(lr.Err, bufzoo.TaskErr()) {
+			if fails && leaf != bufzoo.Discard && lr.Err == nil {
 				t.Fatalf("C16 violated: failing task: consumer got %v", lr.Err)
 			}
 			if !fails && leaf != bufzoo.Discard && (!lr.Complete || string(lr.Data) != "hello") {
